@@ -1,6 +1,7 @@
 package zz_verifsim
 
 import (
+	"bytes"
 	"context"
 	"fmt"
 	"io"
@@ -194,6 +195,58 @@ func (r *refRules) commit(get refView, bs *hotstuff.Block) (c *hotstuff.Block, o
 
 func monC04(w *World) {
 	refs := map[*Node]*refRules{}
+	// The published protocols apply update(b) to every proposal a replica votes for: a vote for a received block b
+	// whose handling never consulted the commit rule for b is compared with the reference's update(b) at the end
+	// of the step (lock and, if the reference commits, the committed block).
+	consulted := map[*Node]map[hotstuff.Hash]bool{}
+	votedFor := map[*Node]*hotstuff.Block{}
+	w.hooks.onSign = append(w.hooks.onSign, func(nd *Node, msg []byte, _ hotstuff.QuorumSignature) {
+		if !nd.honest || nd.byz != nil {
+			return
+		}
+		if pm, ok := nd.curEvent.(hotstuff.ProposeMsg); ok && pm.Block != nil && bytes.Equal(msg, pm.Block.ToBytes()) {
+			votedFor[nd] = pm.Block
+		}
+	})
+	w.hooks.afterStep = append(w.hooks.afterStep, func(nd *Node) {
+		b := votedFor[nd]
+		done := consulted[nd]
+		delete(votedFor, nd)
+		delete(consulted, nd)
+		if b == nil || done[b.Hash()] || w.viol != nil {
+			return
+		}
+		r := refs[nd]
+		if r == nil {
+			r = newRefRules(w.plan.Ruleset)
+			refs[nd] = r
+		}
+		missing := false
+		get := func(h hotstuff.Hash) *hotstuff.Block {
+			x, ok := nd.bc.LocalGet(h)
+			if !ok {
+				missing = true
+				return nil
+			}
+			return x
+		}
+		want, ok := r.commit(get, b)
+		if !ok || missing {
+			w.probe("c04-abstain")
+			if l := nd.rules.lock(); l != nil {
+				r.lock = l
+			}
+			return
+		}
+		w.probe("c04-unconsulted-vote-compared")
+		if l := nd.rules.lock(); l != nil && l.Hash() != r.lock.Hash() {
+			w.violate("C04", "C04/"+w.plan.Ruleset+"/lock", nd, "%s voted for %s without applying the commit rule to it: its lock is %s, the published update(b) locks %s", nd, w.reg.sym(b.Hash()), w.reg.sym(l.Hash()), w.reg.sym(r.lock.Hash()))
+			return
+		}
+		if want != nil && nd.states.CommittedBlock().View() < want.View() {
+			w.violate("C04", "C04/"+w.plan.Ruleset+"/commit", nd, "%s voted for %s without applying the commit rule to it: the published update(b) commits %s", nd, w.reg.sym(b.Hash()), w.reg.sym(want.Hash()))
+		}
+	})
 	w.hooks.onRule = append(w.hooks.onRule, func(nd *Node, kind string, view hotstuff.View, p *hotstuff.ProposeMsg, b *hotstuff.Block) func(vote bool, commit *hotstuff.Block) {
 		if !nd.honest || w.viol != nil {
 			return nil
@@ -252,6 +305,10 @@ func monC04(w *World) {
 				}
 			}
 		case "commit":
+			if consulted[nd] == nil {
+				consulted[nd] = map[hotstuff.Hash]bool{}
+			}
+			consulted[nd][b.Hash()] = true
 			want, ok := r.commit(get, b)
 			abstain := !ok || missing
 			return func(_ bool, commit *hotstuff.Block) {
